@@ -26,7 +26,7 @@ impl<'a> GenCtx<'a> {
             if *n > 0 && *name != "long" {
                 // every class gets the same share of the picks, except the few-KB "medium"
                 // class, which is expensive to interleave: 1/32 of a share
-                let copies = if *name == "medium" { 1 } else { 32 };
+                let copies = if *name == "medium" || *name == "large" { 1 } else { 32 };
                 for _ in 0..copies {
                     class_ranges.push((at, at + n));
                 }
@@ -41,7 +41,7 @@ impl<'a> GenCtx<'a> {
             let (a, b) = *rng.pick(&self.class_ranges);
             let i = a + rng.below((b - a) as u64) as usize;
             // sources above 32 KB are for the reference passes and sweeps only
-            if !self.exclude.contains(&self.cat.sources[i].id) && self.cat.sources[i].text.len() <= 32 * 1024 {
+            if !self.exclude.contains(&self.cat.sources[i].id) && self.cat.sources[i].text.len() <= 64 * 1024 {
                 return i;
             }
         }
